@@ -321,6 +321,9 @@ class Walker(object):
             raise WalkError("const index on %r" % (v,))
         if p[0] == "ix":
             idx = p[1]
+            if isinstance(idx, T) and not idx.is_const() and state.facts:
+                # a reference created before the index was decided keeps the symbolic index: apply the facts now
+                idx = self.simplify(state, idx)
             if isinstance(v, Agg):
                 if idx.is_const():
                     return self._load(state, v, proj[:i] + (("i", idx.val),) + proj[i + 1:], i)[0], changed, v
@@ -405,6 +408,8 @@ class Walker(object):
             raise WalkError("store index into %r" % (v,))
         if p[0] == "ix":
             idx = p[1]
+            if isinstance(idx, T) and not idx.is_const() and state.facts:
+                idx = self.simplify(state, idx)
             if isinstance(v, Agg):
                 if idx.is_const():
                     return self._store(state, v, proj[:i] + (("i", idx.val),) + proj[i + 1:], i, value)
@@ -676,6 +681,11 @@ class Walker(object):
                     adt = self.prog.adt(v.kind[1])
                     return K(adt["variants"][v.variant]["discr"], bits)
                 return K(0, bits)
+            if isinstance(v, EnumTerm):
+                d = v.discr
+                if d.bits == bits:
+                    return d
+                return tm.sext(d, bits) if d.bits < bits else tm.trunc(d, bits)
             if isinstance(v, SymObj):
                 raise SplitEnum(obj, proj, v)
             if isinstance(v, Opaque):
@@ -777,7 +787,8 @@ class Walker(object):
             if d.is_const():
                 idx = {0xFF: 0, 0: 1, 1: 2}[d.val]
                 return Agg(("adt", "core::cmp::Ordering"), idx, ())
-            raise WalkError("symbolic three-way compare")
+            # a fieldless enum value known only through its discriminant term (Less = -1, Equal = 0, Greater = 1)
+            return EnumTerm("core::cmp::Ordering", d)
         raise WalkError("binop %s" % op)
 
     def _shamt(self, a, b):
@@ -887,6 +898,21 @@ class Walker(object):
             return self.assume_not(state, t.args[0], t.args[1].val)
         if op == "not" and t.bits == 1:
             return self.assume(state, t.args[0], 1 - value)
+        if op in ("ite", "sext", "zext") and t.bits > 1:
+            inner = t
+            if op in ("sext", "zext") and inner.args[0].op == "ite":
+                # the value of the narrower ite that extends to `value`
+                n = inner.args[0]
+                cand = [v for v in _ite_values(n) or [] if (tm.to_signed(v, n.bits) & tm.mask(t.bits) if op == "sext" else v) == value]
+                if len(cand) == 1:
+                    return self.assume(state, n, cand[0])
+            elif op == "ite":
+                c, x, y = t.args
+                vx, vy = _ite_values(x), _ite_values(y)
+                if vx is not None and value not in vx:
+                    return self.assume(state, c, 0) and self.assume(state, y, value)
+                if vy is not None and value not in vy:
+                    return self.assume(state, c, 1) and self.assume(state, x, value)
         if op == "zext" and value < (1 << t.args[0].bits):
             return self.assume(state, t.args[0], value)
         if op == "and" and t.bits == 1 and value == 1:
@@ -1313,6 +1339,13 @@ class Walker(object):
                 ex = st.nfacts.get(d, ())
                 if not [v for v in range(lo, hi + 1) if v not in ex and v not in arm_vals]:
                     feasible_other = False
+            pv = _ite_values(d.args[0] if d.op in ("sext", "zext") else d)
+            if pv is not None:
+                # the scrutinee is a selection among constants (e.g. an Ordering built by a three-way compare)
+                if d.op == "sext":
+                    pv = set(tm.to_signed(v, d.args[0].bits) & tm.mask(d.bits) for v in pv)
+                if pv <= set(a & tm.mask(d.bits) for a in arm_vals):
+                    feasible_other = False
             if d.bits == 1 and len(set(arm_vals)) == 2:
                 feasible_other = False
             elif hi - lo + 1 <= len(set(a for a in arm_vals if lo <= a <= hi)):
@@ -1585,6 +1618,30 @@ class SymIndex(Exception):
 class Diverge(object):
     def __init__(self, why):
         self.why = why
+
+
+def _ite_values(t):
+    """the finite set of values of a term built from constants and ite, else None"""
+    if t.op == "k":
+        return {t.args[0]}
+    if t.op == "ite":
+        a, b = _ite_values(t.args[1]), _ite_values(t.args[2])
+        if a is None or b is None:
+            return None
+        return a | b
+    return None
+
+
+class EnumTerm(object):
+    """value of a fieldless enum whose variant is a function of symbolic data: only its discriminant is known"""
+    __slots__ = ("adt", "discr")
+
+    def __init__(self, adt, discr):
+        self.adt = adt
+        self.discr = discr
+
+    def __repr__(self):
+        return "EnumTerm(%s, %s)" % (self.adt, tm.show(self.discr))
 
 
 class ForkValues(object):
